@@ -5,6 +5,7 @@ import (
 	"encoding/json"
 	"fmt"
 	"math/big"
+	"sync"
 	"testing"
 
 	"github.com/consensys/gnark-crypto/ecc"
@@ -151,10 +152,22 @@ func runC10(c c10Case) Result {
 		return bad(class, "Proof.MarshalJSON:order-or-value", "encoded coordinates %v differ from A.x,A.y,B.x1,B.x0,B.y1,B.y0,C.x,C.y = %v", got, c.Coords)
 	}
 	// (2) decoding the library's own text, (4) decoding zero-padded text written by the harness
+	// decode ANOTHER proof's text in between (the previous case's): decoding must not depend on what was decoded before
+	c10prevMu.Lock()
+	prev := c10prev
+	c10prev = append([]byte(nil), text...)
+	c10prevMu.Unlock()
+	if prev != nil {
+		var other prover.Proof
+		func() {
+			defer func() { recover() }()
+			json.Unmarshal(prev, &other)
+		}()
+	}
 	for _, variant := range []struct {
 		name string
 		text []byte
-	}{{"own-output", text}, {"padded-64", writeProofJSON(c.Coords, true)}} {
+	}{{"own-output", text}, {"padded-64", writeProofJSON(c.Coords, true)}, {"own-output-again", text}} {
 		var back prover.Proof
 		var perr any
 		func() {
@@ -163,6 +176,9 @@ func runC10(c c10Case) Result {
 		}()
 		if perr != nil {
 			return bad(class, "Proof.UnmarshalJSON:panic:"+sigSuffix, "decoding %s panicked: %v", variant.name, perr)
+		}
+		if err != nil && variant.name == "padded-64" {
+			continue // accepting zero-padded hex is not promised: if accepted it must be lossless, rejecting it is fine
 		}
 		if err != nil {
 			return bad(class, "Proof.UnmarshalJSON:rejects-"+variant.name+":"+sigSuffix, "decoding %s fails: %v (%d coordinate(s) shorter than 32 bytes, shortest %d bytes, positions %v)", variant.name, err, n, shortest, positions)
@@ -183,6 +199,11 @@ func runC10(c c10Case) Result {
 	}
 	return ok(class, n > 0).tag(tags...)
 }
+
+var (
+	c10prevMu sync.Mutex
+	c10prev   []byte
+)
 
 func init() {
 	registerReplay("TestC10_Synthetic", runC10)
